@@ -119,10 +119,10 @@ theorem general_drop_is_sei_stage (c : Cfg) (conv : Bytes → Option Bytes) (ite
   run_drop_stage c conv {} {} items rfl
 
 /-- mux: likewise, exactly (start codes included), on the base layer -/
-theorem mux_drop_is_sei_stage (c : MCfg) (aud : Nat → Bytes) (conv : Bytes → Option Bytes) (bl el : List Item) :
-    mux { c with drop := true } aud conv bl el =
-      (seiStage true bl).bind (fun b => mux { c with drop := false } aud conv b el) :=
-  mux_drop_stage c aud conv bl el
+theorem mux_drop_is_sei_stage (c : MCfg) (aud : Nat → Bytes) (conv : Bytes → Option Bytes) (n : Nat) (bl el : List Item) :
+    mux { c with drop := true } aud conv n bl el =
+      (seiStage true bl).bind (fun b => mux { c with drop := false } aud conv n b el) :=
+  mux_drop_stage c aud conv n bl el
 
 /-- inject-rpu: likewise -/
 theorem inject_drop_is_sei_stage (c : ICfg) (aud : Nat → Bytes) (pres : Nat → Nat) (n : Nat) (rpus : List Bytes)
